@@ -141,17 +141,16 @@ def gen_case(rng, idx):
         uid = len(lines)
         if shape == "bare":
             lines.append("(require %s)" % m)
-            bring((m + "." + n, plus(consts[n])) for n in exported)
-            if exported:
-                n = rng.choice(exported)
-                lines.append(use("%s.%s" % (m, n)))
+            # a prefixed require brings in EVERY macro of the module (exported or not, underscore or not)
+            bring((m + "." + n, plus(consts[n])) for n in sorted(consts))
+            n = rng.choice(sorted(consts))
+            lines.append(use("%s.%s" % (m, n)))
         elif shape == "as":
             al = rng.choice(["A", "my-alias", "B_"]) + str(uid)
             lines.append("(require %s :as %s)" % (m, al))
-            bring((mangle(al) + "." + n, plus(consts[n])) for n in exported)
-            if exported:
-                n = rng.choice(exported)
-                lines.append(use("%s.%s" % (al, n)))
+            bring((mangle(al) + "." + n, plus(consts[n])) for n in sorted(consts))
+            n = rng.choice(sorted(consts))
+            lines.append(use("%s.%s" % (al, n)))
         elif shape == "star":
             lines.append("(require %s *)" % m)
             bring((n, plus(consts[n])) for n in exported)
@@ -180,11 +179,10 @@ def gen_case(rng, idx):
             al = "Z%d" % uid
             lines.append("(require %s [%s] %s :as %s)" % (m, n1, m2, al))
             bring([(n1, plus(consts[n1]))])
-            bring((al + "." + n, plus(consts2[n])) for n in exported2)
+            bring((al + "." + n, plus(consts2[n])) for n in sorted(consts2))
             lines.append(use(n1))
-            if exported2:
-                n = rng.choice(exported2)
-                lines.append(use("%s.%s" % (al, n)))
+            n = rng.choice(sorted(consts2))
+            lines.append(use("%s.%s" % (al, n)))
         elif shape == "local":
             n = rng.choice(sorted(consts))
             vcount[0] += 1
